@@ -20,6 +20,10 @@ var _ policy.Executor[any] = &executor[any]{}
 func (e *executor[R]) Apply(innerFn func(failsafe.Execution[R]) *common.PolicyResult[R]) func(failsafe.Execution[R]) *common.PolicyResult[R] {
 	return func(exec failsafe.Execution[R]) *common.PolicyResult[R] {
 		if err := e.acquirePermitsWithMaxWait(exec.Context(), exec, 1, e.maxWaitTime); err != nil {
+			// Report the cause of a cancellation, such as a timeout or ExecutionResult.Cancel, rather than a bare context error
+			if canceled, cancelResult := exec.(policy.ExecutionInternal[R]).IsCanceledWithResult(); canceled && cancelResult != nil {
+				return cancelResult
+			}
 			if e.onRateLimitExceeded != nil && errors.Is(err, ErrExceeded) {
 				e.onRateLimitExceeded(failsafe.ExecutionEvent[R]{
 					ExecutionAttempt: exec.(policy.ExecutionInternal[R]).CopyWithResult(nil),
